@@ -2506,7 +2506,11 @@ func (s *netSim) commitSkipScenario() bool {
 	}
 	votesTo(x, kproto.PrevoteType, 2)
 	if x.cs.Round != 2 || x.cs.Step == cstypes.RoundStepCommit {
-		return notReached(fmt.Sprintf("x-still-round-%d-step-%d", x.cs.Round, x.cs.Step))
+		// the repaired behaviour (fix c2849ff): X stays in the commit step; the rest of the schedule
+		// must then let everybody commit
+		s.o.Count("scenario:commit-skip:x-stays-in-commit-step")
+	} else {
+		s.o.Count("scenario:commit-skip:x-left-commit-step")
 	}
 	// P1, P2 commit height 1 in round 1 with {P1, P2, B}
 	for _, nd := range []*netNode{p1, p2} {
